@@ -5,7 +5,7 @@ from checks.common import CheckRun
 
 
 def run_e2e_property(prop, tier, explanation, design_ref, scopes, contract_modules=(), extra=None,
-                     optimize_modes=(True, False), level="other"):
+                     optimize_modes=(True, False), level="other", extra_modes=()):
     """scopes: [(label, [(id, src)], description)]"""
     cr = CheckRun(prop, tier, level, explanation, design_ref)
     if contract_modules:
@@ -15,6 +15,10 @@ def run_e2e_property(prop, tier, explanation, design_ref, scopes, contract_modul
             cr.bounded_check(run_programs, f"{label}-{'opt' if optimize else 'noopt'}", progs,
                              f"{len(progs)} programs: {desc}; optimize={optimize}; inputs: all int32 (SMT)",
                              cr.known, opts={"optimize": optimize})
+        for mlabel, opts in extra_modes:
+            cr.bounded_check(run_programs, f"{label}-{mlabel}", progs,
+                             f"{len(progs)} programs: {desc}; options={opts}; inputs: all int32 (SMT)",
+                             cr.known, opts=dict(opts))
     if extra:
         extra(cr)
     return cr.finish()
